@@ -97,6 +97,16 @@ def run_tlc(module, cfg=None, env=None, workers=12, timeout=600, heap="8g", simu
         m = re.match(r"^<(\w+) line \d+, col \d+ to line \d+, col \d+ of module (\w+)>: (\d+):(\d+)", line)
         if m:
             res.coverage[m.group(1)] = (int(m.group(3)), int(m.group(4)))
+        m = re.match(r"^<(\w+) line \d+, col \d+ to line \d+, col \d+ of module (\w+) "
+                     r"\((\d+) (\d+) (\d+) (\d+)\)>: (\d+):(\d+)", line)
+        if m:
+            # an action that is an operator application: name it by the text at the call site, e.g. Observe(Inc)
+            try:
+                src = open(os.path.join(SPEC_DIR, m.group(2) + ".tla")).read().splitlines()
+                text = src[int(m.group(3)) - 1][int(m.group(4)) - 1:int(m.group(6))]
+            except (OSError, IndexError):
+                text = m.group(1)
+            res.coverage[text] = (int(m.group(7)), int(m.group(8)))
     if p.returncode == 124 or p.returncode == 137:
         raise TlcError("TLC timed out after %ds on %s" % (timeout, module))
     ok_codes = (0,)
